@@ -38,6 +38,17 @@ def sampleBlob : Blob :=
   { tree := sampleTree, nRunners := 2,
     results := [sampleRec 50 1 3 [4], sampleRec 51 2 4 []] }
 
+/-- a one-leaf taxonomy: no correlation was computed (`avg_correlation` is `null`) -/
+def nullLevel : LevelRec :=
+  { assignment := 5, prob := .val 1, corr := .null, agg := .val 1, direct := true,
+    runAsg := some [], runProb := some [], runCorr := some [] }
+
+def nullBlob : Blob :=
+  { tree := { hierarchy := [1], levels := [(1, [(5, [])])], nameMapper := none,
+              hierarchyMapper := none },
+    nRunners := 0,
+    results := [{ cellId := 0, levels := [(1, nullLevel)] }] }
+
 /-! ## HDF5 -/
 
 /-- *"Writing the result to HDF5 and reading it back reproduces every cell id,
@@ -73,6 +84,79 @@ theorem h5_roundtrip_fields (b : Blob) (hinv : outInv b = true) :
   exact ⟨h, b, h1, h2, rfl, rfl, rfl, rfl⟩
 
 example : ∃ r ∈ sampleBlob.results, ∃ e ∈ r.levels, e.2.runAsg = some [4] := by decide
+
+/-- *"fixed-width runner-up arrays padded with −1"* (mechanism of the
+property): for **any** blob that `blob_to_hdf5` accepts, the datasets are
+rectangular — one row per cell, one column per level, and (iff
+`n_runners_up > 0`) runner-up rows of exactly `n_runners_up` entries -/
+theorem h5_shapes (b : Blob) (h : H5) (hh : toH5 b = .ok h) :
+    h.cellId = b.results.map (·.cellId) ∧
+    h.assignment.length = b.results.length ∧
+    (∀ row ∈ h.assignment, row.length = b.tree.hierarchy.length) ∧
+    (h.runners.isSome ↔ b.nRunners > 0) ∧
+    (∀ r, h.runners = some r →
+      ∀ cell ∈ r.asg, cell.length = b.tree.hierarchy.length ∧
+        ∀ row ∈ cell, row.length = b.nRunners) := by
+  obtain ⟨slots, hes, _, _, hc, ha, _, _, _, hrun⟩ := toH5_inv hh
+  obtain ⟨hl, hg⟩ := encCells_good hes
+  refine ⟨hc, by simp [ha, hl], ?_, ?_, ?_⟩
+  · intro row hrow
+    rw [ha] at hrow
+    obtain ⟨row0, h0, rfl⟩ := List.mem_map.mp hrow
+    simp [(hg row0 h0).1]
+  · by_cases hn : b.nRunners > 0 <;> simp [hrun, hn]
+  · intro r hr cell hcell
+    by_cases hn : b.nRunners > 0
+    · simp only [hrun, hn, if_true, Option.some.injEq] at hr
+      subst hr
+      obtain ⟨row0, h0, rfl⟩ := List.mem_map.mp hcell
+      refine ⟨by simp [(hg row0 h0).1], ?_⟩
+      intro row hrow
+      obtain ⟨s, hs, rfl⟩ := List.mem_map.mp hrow
+      exact ((hg row0 h0).2 s hs).2.2.2.1
+    · simp [hrun, hn] at hr
+
+example : ∃ h, toH5 sampleBlob = .ok h ∧ (h.runners.map (·.asg)) = some [[[-1, -1], [1, -1]], [[-1, -1], [-1, -1]]] := by
+  exact ⟨_, rfl, by decide⟩
+
+/-- the code as it is: `_blob_to_hdf5_results` stores `None` into a float64
+array (it becomes `NaN`), so whatever blob was written, the probabilities
+and correlations `hdf5_to_blob` returns are never JSON `null` … -/
+theorem h5_never_null (b b' : Blob) (h : H5) (h1 : toH5 b = .ok h) (h2 : ofH5 h = .ok b') :
+    ∀ r ∈ b'.results, ∀ e ∈ r.levels,
+      e.2.prob ≠ .null ∧ e.2.corr ≠ .null ∧ e.2.agg ≠ .null := by
+  intro r hr e he
+  obtain ⟨g1, g2, g3⟩ := ofH5_toH5_numOK h1 h2 r hr e he
+  refine ⟨?_, ?_, ?_⟩ <;> intro hn <;> simp [hn, numOK] at *
+
+/-- … hence an output in which some `avg_correlation` (or probability) is
+`null` — what the mapper produces for a taxonomy with a single leaf — is
+**not** reproduced by the HDF5 round trip: the hypothesis "no `null`" of
+`OutInv` in `h5_roundtrip` cannot be dropped (finding
+`C15/pipeline/h5/avg_correlation/null-becomes-nan/single-leaf-taxonomy`) -/
+theorem h5_null_not_reproduced (b : Blob) (r : Record) (e : Lvl × LevelRec)
+    (hr : r ∈ b.results) (he : e ∈ r.levels)
+    (hnull : e.2.prob = .null ∨ e.2.corr = .null ∨ e.2.agg = .null) :
+    ∀ h, toH5 b = .ok h → ofH5 h ≠ .ok b := by
+  intro h h1 h2
+  obtain ⟨g1, g2, g3⟩ := h5_never_null b b h h1 h2 r hr e he
+  rcases hnull with hn | hn | hn
+  · exact g1 hn
+  · exact g2 hn
+  · exact g3 hn
+
+example : (∃ r ∈ nullBlob.results, ∃ e ∈ r.levels, e.2.corr = .null) ∧
+    ∃ h b', toH5 nullBlob = .ok h ∧ ofH5 h = .ok b' ∧ b' ≠ nullBlob :=
+  ⟨by decide, _, _, rfl, rfl, by decide⟩
+
+/-- the three files tell the same story: the CSV written from the blob read
+back from HDF5 is the CSV written from the JSON blob -/
+theorem csv_after_h5 (b : Blob) (hinv : outInv b = true) (taint : List Lvl) (ck : ConfKey) :
+    ∃ h b', toH5 b = .ok h ∧ ofH5 h = .ok b' ∧
+      csvRows b'.tree taint ck b'.results = csvRows b.tree taint ck b.results ∧
+      csvColumns b'.tree = csvColumns b.tree := by
+  obtain ⟨h, h1, h2⟩ := ofH5_toH5 b hinv
+  exact ⟨h, b, h1, h2, rfl, rfl⟩
 
 /-! ## CSV -/
 
